@@ -586,7 +586,9 @@ impl SessionManager {
         gauge!(names::client::CONNECTIONS, self.nb_connections);
 
         // do not be ready to accept right away, wait until we get back to 10% capacity
-        if !self.can_accept && self.nb_connections < self.max_connections * 90 / 100 {
+        // (the threshold never rounds down to 0, or accepting would never resume
+        // for max_connections == 1)
+        if !self.can_accept && self.nb_connections < (self.max_connections * 90 / 100).max(1) {
             debug!(
                 "nb_connections = {}, max_connections = {}, starting to accept again",
                 self.nb_connections, self.max_connections
